@@ -40,6 +40,13 @@ CORPUS_FILES = [
 ]
 
 
+def witnesses_for(corpus_name):
+  idx = os.path.join(VERIF, "harness", "witness", "index.json")
+  if not os.path.exists(idx):
+    return []
+  return sorted(w for w, c in json.load(open(idx)).items() if c == corpus_name)
+
+
 def tree_hash(paths):
   h = hashlib.sha256()
   for root in paths:
@@ -68,6 +75,7 @@ def cache_key(tier, seed, name):
     with open(os.path.join(VERIF, rel), "rb") as f:
       h.update(rel.encode())
       h.update(f.read())
+  h.update(tree_hash([os.path.join(VERIF, "harness", "witness")]).encode())
   h.update(("%s|%s|%s" % (tier, seed, name)).encode())
   return h.hexdigest()[:24]
 
@@ -116,6 +124,8 @@ def get(ctx, name="shared", profiles=None, plan=None):
     n = nq if ctx.tier == "quick" else nt
     base = ctx.seed * 100000
     jobs += [[prof, s, nb] for s in range(base, base + n)]
+  # scripted witnesses of known findings / repaired defects that belong to this corpus
+  jobs += [["script:" + w, 0, 0] for w in witnesses_for(name)]
   # interleave profiles so that shards are balanced
   jobs.sort(key=lambda j: (j[1], j[0]))
   shards, gen_wall = corpus.build_jobs_corpus(jobs, wd, nshards=16 if ctx.tier == "quick" else 64)
@@ -223,6 +233,8 @@ def clause_violations(ctx, res, prefix, n_bundles_of, first_only=True):
 def n_bundles_fn(ctx, plan=None):
   plan = plan or PLAN
   def fn(tid):
+    if tid.startswith("script:"):
+      return 0
     nq, nt, bq, bt = plan[profile_of(tid)]
     return bq if ctx.tier == "quick" else bt
   return fn
